@@ -44,7 +44,7 @@ COMPONENTS = {"real": ["all of /repo/setigen reached by the programs", "blimpy/h
 ASSUMPTIONS = ["observables are returned arrays, frame attributes, RAW file bytes, .fil bytes and .h5 datasets/attributes (not raw HDF5 bytes)",
                "programs never rely on OS entropy: an unseeded draw that changes an observable is reported with its call site"]
 PROBES = ["twin_frame_compared", "twin_raw_compared", "history_compared", "reuse_compared", "user_dict_compared",
-          "reuse_after_failed_recording", "reuse_from_data", "reuse_not_compared_interrupt_inside_source_request",
+          "reuse_after_failed_recording", "reuse_from_data", "estimate_seeded_on_template", "reuse_not_compared_interrupt_inside_source_request",
           "copy_of_load_fil", "copy_of_sizes", "record_default_header", "record_shared_header", "aborted_recording_in_history",
           "array_then_single", "from_data_seeded_estimate", "copy_of_load_h5", "copy_of_derived", "hashseed_program_compared", "near_twin_prefix"]
 
@@ -181,7 +181,10 @@ def gen_raw_program(rng, tier, ids_from=0, stem_prefix="r", with_fault=False, fr
             ant2 = dict(copy.deepcopy(ant), seed=rng.randrange(1 << 30))
             prog.append({"op": "r_from_data", "id": bid + 1, "ant": ant2, "el": el, "be": be, "in_stem": src["stem"],
                          "num_subblocks": rng.randint(1, be["W"] + 2), "listing": rng.choice(["sorted", "reverse", 7])})
-            prog.append({"op": "r_estimate", "id": bid + 1, "seed": rng.randrange(1 << 30), "factor": rng.choice([50, 200])})
+            if rng.random() < 0.4:
+                prog[-1]["template_estimate"] = {"seed": rng.randrange(1 << 30), "factor": rng.choice([50, 200])}
+            else:
+                prog.append({"op": "r_estimate", "id": bid + 1, "seed": rng.randrange(1 << 30), "factor": rng.choice([50, 200])})
             prog.append({"op": "r_record", "id": bid + 1, "stem": "%sinj%d" % (stem_prefix, bid), "num_blocks": rng.choice([1, 2, 9]),
                          "header": {"kind": "user", "cards": {}}, "digitize": rng.random() < 0.6, "template": rng.random() < 0.5})
     return prog, (ant, el, be)
